@@ -2061,6 +2061,67 @@ def vcghol_case(ctx, H, pre, c, post, label, lines, pending):
     ctx.count("vcghol:nonvacuous")
 
 
+def gen_rule_near_miss(rng, vs):
+    """Triples that are true or false because of exactly ONE premise of a Hoare rule.  The precondition pins
+    an initial state st0; the postcondition records what some run OTHER than the real one would produce:
+    the branch of a conditional that is NOT taken from st0, a loop body run once more or once less, the
+    second command of a sequence alone.  A sound generator must leave a condition that fails at st0 (or the
+    guess happens to be right for the real run too: then the triple is true); a rule that lost a guard, a
+    premise or the order of its parts lets such a triple through, and oracle (a) sees the run from st0."""
+    V, I = (lambda x: ("var", x)), (lambda k: ("int", k))
+    B = lambda o, a, b: ("bin", o, a, b)
+    st0 = {v: rng.randint(0, 2) for v in vs}
+    pre = None
+    for v in vs:
+        eqn = B("eq", V(v), I(st0[v]))
+        pre = eqn if pre is None else B("and", eqn, pre)
+
+    def simple():
+        r = rng.random()
+        if r < 0.3:
+            return ("skip",)
+        a = ("assign", rng.choice(vs), gen_nat_arith(rng, 1, vs))
+        return a if r < 0.8 else ("seq", a, ("assign", rng.choice(vs), gen_nat_arith(rng, 1, vs)))
+
+    def facts(fin):
+        eqs = [B("eq", V(v), I(fin.get(v, 0))) for v in vs]
+        rng.shuffle(eqs)
+        post = eqs[0]
+        for e in eqs[1:rng.randint(1, len(eqs))]:
+            post = B("and", e, post)
+        return post
+    kind = rng.choice(["cond", "cond", "cond", "seq", "while"])
+    try:
+        if kind == "cond":
+            b = gen_hcond(rng, rng.randint(0, 1), vs)
+            c1, c2 = simple(), simple()
+            if c1 == c2:
+                c2 = ("assign", vs[0], B("add", V(vs[0]), I(1)))
+            other = c2 if ev(b, st0) is True else c1
+            c = ("cond", b, c1, c2)
+            post = facts(run_ref(other, dict(st0), [200]))
+            if rng.random() < 0.3:
+                c = ("seq", ("skip",), c) if rng.random() < 0.5 else ("seq", c, ("skip",))
+        elif kind == "seq":
+            c1, c2 = simple(), simple()
+            c = ("seq", c1, c2)
+            post = facts(run_ref(rng.choice([c2, c1, ("seq", c2, c1)]), dict(st0), [200]))
+        else:
+            i = vs[0]
+            bound = st0[i] + rng.randint(0, 2)
+            others = [v for v in vs if v != i] or vs
+            body = ("seq", ("assign", rng.choice(others), gen_nat_arith(rng, 1, vs)), ("assign", i, B("add", V(i), I(1))))
+            c = ("while", B("ne", V(i), I(bound)), TRUE, body)
+            k = max(0, bound - st0[i] + rng.choice([-1, 0, 1]))
+            fin = dict(st0)
+            for _ in range(k):
+                fin = run_ref(body, fin, [200])
+            post = facts(fin)
+    except (OutOfFuel, Stuck):
+        return None
+    return pre, c, post
+
+
 def vcghol_stage(ctx):
     H = HolBuilder()
     rng = ctx.rng("vcghol")
@@ -2077,6 +2138,12 @@ def vcghol_stage(ctx):
              (TRUE, ("seq", ("assign", "a", I(1)), ("cond", B("lt", V("a"), I(1)), ("assign", "b", I(0)), ("assign", "b", I(1)))), B("eq", V("b"), I(1)))]
     for pre, c, post in fixed:
         vcghol_case(ctx, H, pre, c, post, "checked", lines, pending)
+    # one-premise near misses of every rule (wrong branch / wrong iteration count / wrong order), state pinned
+    for i in range(ctx.scale(30, 300)):
+        t = gen_rule_near_miss(rng, ["a", "b", "c"][:rng.choice([1, 2, 2, 3])])
+        if t is not None:
+            ctx.count("vcghol:near-miss:" + t[1][0])
+            vcghol_case(ctx, H, t[0], t[1], t[2], "checked" if i % 10 == 0 else "random", lines, pending)
     import time
     t0, budget = time.time(), ctx.scale(50, 400)
     for i in range(n):
